@@ -165,13 +165,15 @@ class BIFReader(object):
         return probability_expr, cpd_expr
 
     def variable_block(self):
-        start = re.finditer("variable", self.network)
+        # whole words only: a name such as "variable_a" or "myvariable" is not a block start
+        start = re.finditer(r"(?<![\w.-])variable(?![\w.-])", self.network)
         for index in start:
             end = self.network.find("}\n", index.start())
             yield self.network[index.start() : end]
 
     def probability_block(self):
-        start = re.finditer("probability", self.network)
+        # whole words only: a name such as "probability_of" is not a block start
+        start = re.finditer(r"(?<![\w.-])probability(?![\w.-])", self.network)
         for index in start:
             end = self.network.find("}\n", index.start())
             yield self.network[index.start() : end]
